@@ -111,13 +111,12 @@ def _create_consumer(ctx, consumer_uuid, project, user, consumer_type_id,
                     'got_gen': None,
                 },
                 comment=errors.CONCURRENT_UPDATE)
-        # If the types don't match, update the consumer record
-        if consumer_type_id != consumer.consumer_type_id:
-            LOG.debug("Supplied consumer type for consumer %s was "
-                      "different than existing record. Updating "
-                      "consumer record.", consumer_uuid)
-            consumer.consumer_type_id = consumer_type_id
-            consumer.update()
+        # The consumer is an existing one as far as this request is
+        # concerned. Its type is only changed by update_consumers(), inside
+        # the writing transaction and only by a request that names a type:
+        # changing it here would survive the rejection of this request, and
+        # a request below 1.38 (which gets here with no type) would erase
+        # the type the other request has just recorded.
     return consumer, created_new_consumer
 
 
